@@ -245,7 +245,9 @@ static void cmd(std::istringstream& is) {
         try { ok = I.eval(argv.size(), argv.data()); }
         catch (const std::exception& ex) { ok = false; I.exception_string = ex.what(); }
         if (nul) { fflush(stderr); dup2(saved, 2); fclose(nul); } close(saved);
-        dump_state("Exec", ok);
+        std::string tk = ",\"toks\":[";
+        for (size_t i = 0; i < toks.size(); i++) tk += (i ? "," : "") + jstr(toks[i]);
+        dump_state("Exec", ok, tk + "]");
     } else {
         printf("{\"e\":\"BadCmd\"}\n");
     }
